@@ -5,6 +5,7 @@ package rtcp
 
 import (
 	"fmt"
+	"math"
 )
 
 // The ExtendedReport packet is an Implementation of RTCP Extended
@@ -554,6 +555,11 @@ func (x ExtendedReport) MarshalSize() int {
 func (x ExtendedReport) Marshal() ([]byte, error) {
 	for _, p := range x.Reports {
 		p.setupBlockHeader()
+	}
+
+	// the header length field counts 32-bit words (minus one) in 16 bits
+	if x.MarshalSize() > 4*(math.MaxUint16+1) {
+		return nil, errWrongMarshalSize
 	}
 
 	length := wireSize(x)
